@@ -145,9 +145,13 @@ impl Gen {
                 self.mark("block-expr");
                 return self.block_expr(ty, d - 1);
             }
-            if k < 30 && self.ret == Ret::OptTk && ty == Ty::Tk {
+            if k < 40 && self.ret == Ret::OptTk && ty == Ty::Tk {
                 self.mark("question-mark");
                 return format!("({})?", self.expr(Ty::OptTk, d - 1));
+            }
+            if k < 34 && self.ret == Ret::OptTk && ty == Ty::U32 {
+                self.mark("question-mark");
+                return format!("id(({})?)", self.expr(Ty::OptTk, d - 1));
             }
         }
         let vars = self.vars_of(ty);
@@ -227,8 +231,19 @@ impl Gen {
                 3 => format!("name({})", self.expr(Ty::Tk, dd)),
                 4 => {
                     self.mark("f-string");
-                    let a = self.expr(Ty::U32, dd);
-                    let b = self.expr(Ty::Str, dd);
+                    let mut a = self.expr(Ty::U32, dd);
+                    let mut b = self.expr(Ty::Str, dd);
+                    // an early exit taken from inside an interpolation (first or later part)
+                    if self.rng.chance(1, 3) {
+                        self.mark("f-string-exit");
+                        let c = self.expr(Ty::Bool, 0);
+                        let x = self.exit(0);
+                        if self.rng.chance(1, 2) {
+                            a = format!("if {c} {{ {x} }} else {{ {a} }}");
+                        } else {
+                            b = format!("if {c} {{ {b} }} else {{ {x} }}");
+                        }
+                    }
                     format!("f\"x{{{a}}}y{{{b}}}\"")
                 }
                 5 => {
@@ -439,6 +454,29 @@ impl Gen {
     pub fn stmt(&mut self, d: u32) -> String {
         self.budget -= 1;
         let d1 = d.saturating_sub(1);
+        // functions returning `Tk?`: `?` at statement level, so that several of them see
+        // different sets of live values (what was created in between, inner scopes)
+        if self.ret == Ret::OptTk && self.rng.chance(1, 4) {
+            self.mark("question-mark");
+            let e = self.expr(Ty::OptTk, d.min(1));
+            let v = self.name("v");
+            self.env.push((v.clone(), Ty::Tk));
+            return format!("let {v}: Tk = ({e})?;");
+        }
+        // an f-string built at statement level (its parts may leave the function)
+        if self.rng.chance(1, 14) {
+            self.mark("f-string-stmt");
+            let a = self.expr(Ty::U32, d.min(1));
+            let (c, x) = (self.expr(Ty::Bool, 0), self.exit(0));
+            let b = self.expr(Ty::Str, d.min(1));
+            let v = self.name("v");
+            self.env.push((v.clone(), Ty::Str));
+            return if self.rng.chance(1, 2) {
+                format!("let {v}: String = f\"p{{{a}}}q{{if {c} {{ {x} }} else {{ {b} }}}}r\";")
+            } else {
+                format!("let {v}: String = f\"p{{{a}}}q{{{b}}}\";")
+            };
+        }
         let k = if d == 0 || self.budget <= 0 { self.rng.below(45) } else { self.rng.below(100) };
         if k < 25 {
             self.mark("let");
